@@ -14,6 +14,20 @@ From Verif Require Import Lib.Bytes Model.GnosisSlot Proofs.GnosisSlotSort Proof
 Import ListNotations.
 Open Scope Z_scope.
 
+(* Decide an agreement by cases on the comparison atoms rather than by following one shape of
+   the source: >? and >=? are rewritten into <? and <=?, every comparison in the goal is replaced
+   by its specification, then both sides are concrete - equal unless the hypotheses contradict
+   each other. Every step that could search is bounded by a timeout. *)
+Ltac gs_norm_cmp := rewrite ?Z.gtb_ltb, ?Z.geb_leb.
+Ltac gs_split_atoms :=
+  repeat match goal with
+         | |- context [Z.eqb ?a ?b] => destruct (Z.eqb_spec a b)
+         | |- context [Z.ltb ?a ?b] => destruct (Z.ltb_spec a b)
+         | |- context [Z.leb ?a ?b] => destruct (Z.leb_spec a b)
+         end;
+  cbn [negb andb orb].
+Ltac gs_absurd := exfalso; timeout 30 lia.
+
 (* ---------- casts ----------------------------------------------------------------------- *)
 
 Lemma gen_to_int64_is x : gen_to_int64 x = to_i64 x.
@@ -99,16 +113,17 @@ Lemma gen_sel_loop_agrees L evs : forall gas pre,
 Proof.
   induction evs as [|r t IH]; intros gas pre Hpre; simpl.
   - rewrite app_nil_r. reflexivity.
-  - unfold u64, two64. rewrite Z.gtb_ltb.
+  - unfold u64, two64. gs_norm_cmp.
     set (acc := (gas + q_gas r mod 18446744073709551616) mod 18446744073709551616).
-    destruct (L <? acc); destruct (1 <? Z.of_nat (length pre)) eqn:Et; simpl;
-      try (rewrite app_nil_r; reflexivity);
-      rewrite gen_event_identity_agrees; destruct (event_identity r) as [i|]; try reflexivity;
-      (rewrite IH by (rewrite app_length; simpl; lia));
-      (replace (1 <? Z.of_nat (length (pre ++ [i]))) with true
-         by (symmetry; apply Z.ltb_lt; rewrite app_length; simpl; lia));
-      destruct (sel_loop L acc true t); simpl; try reflexivity;
-      rewrite <- app_assoc; reflexivity.
+    rewrite gen_event_identity_agrees.
+    assert (Hlen : forall i, (1 <? Z.of_nat (length (pre ++ [i]))) = true).
+    { intros i. apply Z.ltb_lt. rewrite app_length. simpl. timeout 30 lia. }
+    assert (Hpl : 1 <= Z.of_nat (length pre)) by (timeout 30 lia).
+    destruct (event_identity r) as [i|].
+    + rewrite IH by (rewrite app_length; simpl; timeout 30 lia). rewrite Hlen.
+      destruct (sel_loop L acc true t) as [is|]; gs_split_atoms;
+        cbn [option_map]; rewrite ?app_nil_r, <- ?app_assoc; try reflexivity; gs_absurd.
+    + gs_split_atoms; cbn [option_map]; rewrite ?app_nil_r; try reflexivity; gs_absurd.
 Qed.
 
 Definition result_of (r : ids_result) : gen_result :=
@@ -134,9 +149,13 @@ Proof.
   pose proof (row_limit_nonneg cfg) as Hnn.
   unfold row_limit, u64, two64, max_i32 in *.
   set (lim := (cfg_gas_limit cfg / cfg_min_gas cfg + 1) mod 18446744073709551616) in *.
-  rewrite Z.gtb_ltb.
-  destruct (2147483647 <? lim) eqn:E1; [reflexivity|].
-  apply Z.ltb_ge in E1.
+  gs_norm_cmp.
+  (* the model's test first, then whatever comparison the source makes of it *)
+  destruct (Z.ltb_spec 2147483647 lim) as [E1|E1];
+    [gs_split_atoms; try reflexivity; gs_absurd|].
+  assert (Hgo : forall (a b : gen_result) (c : bool), c = false -> (if c then a else b) = b)
+    by (intros a b c ->; reflexivity).
+  try (rewrite Hgo by (gs_split_atoms; try reflexivity; gs_absurd)).
   rewrite gen_to_int32_small by (unfold max_i32; lia).
   destruct (select_events q e p lim) as [evs|]; [|reflexivity].
   rewrite Zmod_0_l.
@@ -173,12 +192,14 @@ Lemma gen_get_tx_pointer_agrees maxage q ptrs e :
   /\ fst (get_tx_pointer maxage q ptrs e) = (if row_missing row then set_ptr ptrs e 0 (Some 0) else ptrs).
 Proof.
   cbv zeta. unfold gen_get_tx_pointer, get_tx_pointer, outdated.
-  destruct (get_ptr ptrs e) as [r|]; simpl; [|split; reflexivity].
-  destruct (p_age r) as [a|]; simpl.
-  - rewrite Z.gtb_ltb. destruct (maxage <? a); simpl.
-    + destruct (queue_length q e); split; reflexivity.
-    + split; reflexivity.
-  - destruct (queue_length q e); split; reflexivity.
+  destruct (get_ptr ptrs e) as [r|];
+    cbn [row_missing row_value row_age row_age_valid];
+    [|cbn; split; timeout 30 reflexivity].
+  (* by cases on the age column and on every comparison atom of either side; the count query is
+     consulted lazily on both sides *)
+  destruct (p_age r) as [a|]; cbn [negb]; gs_norm_cmp; gs_split_atoms;
+    cbn [fst snd app]; try gs_absurd;
+    destruct (queue_length q e); cbn [fst snd]; split; timeout 30 reflexivity.
 Qed.
 
 (* a database error of GetTxPointer or SetTxPointer is an error return *)
